@@ -263,6 +263,199 @@ def kmeans_section(ck):
                returned_J_inf=ninf)
 
 
+# ------------------------------------------------------------------ float implementation under stress
+OFFSETS = [0.0, 1e6, 1e8, 1.7e9, 1e10, 1e12]
+EPS = 2.0 ** -52
+
+
+def stress_matrix(rng, n, p, offset=None, mixed=None):
+    """float matrix whose entries are off_j + s_j * small integer, every entry and every difference exactly
+    representable; returns (float array, structural tag)"""
+    offset = rng.choice(OFFSETS) if offset is None else offset
+    mixed = (rng.random() < 0.3) if mixed is None else mixed
+    cols, scales = [], []
+    for j in range(p):
+        sc = float(rng.choice([2.0 ** -6, 1.0, 2.0 ** 8])) if mixed else 1.0
+        off = offset if (not mixed or rng.random() < 0.7) else 0.0
+        if off * 1.0 + sc * 64 > 2.0 ** 52 or (off and sc < 1 and off > 1e10):
+            sc = 1.0
+        cols.append(off + sc * rng.integers(0, 20, size=n).astype(float))
+        scales.append((off, sc))
+    X = np.stack(cols, 1)
+    tag = ("offset>=1e6" if offset >= 1e6 else "small-offset") + ("+mixed-scales" if mixed else "")
+    return X, scales, tag
+
+
+def exact_d2(x, c):
+    return sum((F(float(a)) - F(float(b))) ** 2 for a, b in zip(x, c))
+
+
+def float_stress_section(ck):
+    """The float implementation (not the Fraction run) against exact rational distances, on data with large common
+    offsets, per-feature scales and near-duplicate centres.  Independent of the Coq build and of the translators."""
+    import warnings
+    from nipy.algorithms.clustering import utils as U
+    from nipy.algorithms.clustering import hierarchical_clustering as hc
+    from nipy.algorithms.graph.graph import WeightedGraph
+    rng = ck.rng("float-stress")
+    REL = F(1, 10 ** 9)
+
+    def estep_case(X, C, tag):
+        n, k = len(X), len(C)
+        rep = {"x": [[repr(float(v)) for v in r] for r in X], "centers": [[repr(float(v)) for v in r] for r in C]}
+        ck.count(("fes", rep["x"], rep["centers"]), bucket="float-estep:%s" % tag)
+        outs = []
+        for fn in ("voronoi", "_EStep"):
+            try:
+                if fn == "voronoi":
+                    z = U.voronoi(X.copy(), C.copy())
+                    J = None
+                else:
+                    z, J = U._EStep(X.copy(), C.copy())
+            except Exception as e:  # noqa
+                ck.fail("%s/float/raises" % fn, "%s raised %s: %s" % (fn, type(e).__name__, e), rep)
+                continue
+            z = [int(v) for v in z]
+            r2 = dict(rep, labels=z, function=fn)
+            if len(z) != n or any(not (0 <= v < k) for v in z):
+                ck.fail("voronoi/float/labels-out-of-range/%s" % tag, "%s labels %s for %d centres" % (fn, z, k), r2)
+                continue
+            tot = F(0)
+            for i in range(n):
+                d = [exact_d2(X[i], C[q]) for q in range(k)]
+                tot += d[z[i]]
+                if d[z[i]] > min(d) * (1 + REL):
+                    ck.fail("voronoi/float/not-closest-centre/%s" % tag,
+                            "%s: point %d = %s is labelled %d (squared distance %s) but centre %d is at squared distance %s"
+                            % (fn, i, rep["x"][i], z[i], float(d[z[i]]), d.index(min(d)), float(min(d))), r2)
+                    break
+            else:
+                if J is not None and abs(F(float(J)) - tot) > REL * (1 + tot):
+                    ck.fail("estep/float/J-not-inertia/%s" % tag, "_EStep J=%r but the inertia of its labels is %s" % (float(J), float(tot)), r2)
+            outs.append(z)
+        if len(outs) == 2 and outs[0] != outs[1]:
+            ck.fail("voronoi/differs-from-estep", "voronoi %s, _EStep %s" % (outs[0], outs[1]), rep)
+
+    # the two situations of time-stamp like data, written out
+    t0 = 1.7e9
+    estep_case((t0 + np.array([0., 1., 2., 10., 11., 12.])).reshape(6, 1), (t0 + np.array([1., 11.])).reshape(2, 1), "offset>=1e6")
+    xs = (1e8 + np.array([0., 1., 5., 6.])).reshape(4, 1)
+    estep_case(xs, xs.copy(), "offset>=1e6+every-point-a-centre")
+    for t in range(ck.n(160, 1500)):
+        n = int(rng.integers(1, 10))
+        p = int(rng.integers(1, 5))
+        k = int(rng.integers(1, 6))
+        X, scales, tag = stress_matrix(rng, n, p)
+        mode = t % 4
+        if mode == 0:                          # every point (or a subset) is a centre
+            C = X[rng.permutation(n)[:max(1, min(k, n))]].copy()
+            tag += "+points-as-centres"
+        else:
+            C = np.stack([off + sc * (rng.integers(0, 40, size=k) / 2.0) for off, sc in scales], 1)
+            if mode == 1 and k > 1:            # near-duplicate centres: one grid step (or half a step) apart in one coordinate
+                a, b = rng.permutation(k)[:2]
+                C[b] = C[a]
+                j = int(rng.integers(0, p))
+                C[b, j] = C[a, j] + scales[j][1] * float(rng.choice([0.0, 0.5, 1.0]))
+                tag += "+near-duplicate-centres"
+        estep_case(X, C, tag)
+
+    # ---- float kmeans: member means, inertia, monotonicity in maxiter, fixed point is a nearest-centre labelling
+    for t in range(ck.n(60, 600)):
+        n = int(rng.integers(2, 10))
+        p = int(rng.integers(1, 4))
+        k = int(rng.integers(1, min(n, 4) + 1))
+        X, scales, tag = stress_matrix(rng, n, p, offset=float(rng.choice([0.0, 1e6, 1e8, 1.7e9])))
+        lab = rng.integers(0, k, size=n)
+        Xe = [[F(float(v)) for v in r] for r in X]
+        maxabs = float(np.abs(X).max()) + 1.0
+        spread = max(float(X[:, j].max() - X[:, j].min()) for j in range(p)) + 1.0
+        slack = F(64 * n * p * spread * EPS * maxabs)
+        rep = {"X": [[repr(float(v)) for v in r] for r in X], "k": k, "Labels": [int(v) for v in lab]}
+        ck.count(("fkm", rep["X"], k, tuple(rep["Labels"])), bucket="float-kmeans:%s" % tag)
+        prev = None
+        res = {}
+        for mi in (1, 2, 3, 50, 51):
+            try:
+                C, z, J = U.kmeans(X.copy(), k, lab.copy(), maxiter=mi, delta=0.0)
+            except Exception as e:  # noqa
+                ck.fail("kmeans/float/raises", "kmeans raised %s: %s" % (type(e).__name__, e), dict(rep, maxiter=mi))
+                break
+            z = [int(v) for v in z]
+            r2 = dict(rep, maxiter=mi, labels=z, centres=[[repr(float(v)) for v in r] for r in C], J=repr(float(J)))
+            if len(z) != n or any(not (0 <= v < k) for v in z) or C.shape != (k, p):
+                ck.fail("kmeans/float/labels-out-of-range/%s" % tag, "labels %s, centres of shape %s" % (z, C.shape), r2)
+                break
+            means = expected_centres(Xe, z, k)
+            if any(abs(F(float(C[q, j])) - means[q][j]) > F(8 * EPS * maxabs) for q in range(k) for j in range(p)):
+                ck.fail("kmeans/float/centres-not-member-means/%s" % tag, "centres %s, member means %s" % (r2["centres"], [[float(v) for v in r] for r in means]), r2)
+                break
+            Wc = sum(exact_d2(X[i], C[z[i]]) for i in range(n))
+            if not np.isfinite(J) or abs(F(float(J)) - Wc) > REL * (1 + Wc):
+                ck.fail("kmeans/float/returned-J-not-inertia/%s" % tag, "J=%r, inertia of the returned solution %s" % (float(J), float(Wc)), r2)
+            Wm = wcss(Xe, z, means)                      # a function of the labels only
+            if prev is not None and Wm > prev[1] * (1 + REL) + slack:
+                ck.fail("kmeans/float/more-iterations-worse/%s" % tag, "maxiter=%d: inertia %s of the returned labels > %s with maxiter=%d"
+                        % (mi, float(Wm), float(prev[1]), prev[0]), r2)
+            prev = (mi, Wm)
+            res[mi] = (z, C, r2)
+        if 50 in res and 51 in res and res[50][0] == res[51][0]:
+            z, C, r2 = res[50]                           # a fixed point of the iteration: labels = nearest returned centre
+            for i in range(n):
+                d = [exact_d2(X[i], C[q]) for q in range(k)]
+                if d[z[i]] > min(d) * (1 + REL) + F(16 * p * spread * EPS * maxabs):
+                    ck.fail("kmeans/float/fixed-point-not-nearest-centre/%s" % tag,
+                            "after 50 iterations point %d = %s has label %d (squared distance %s) but centre %d is at %s"
+                            % (i, rep["X"][i], z[i], float(d[z[i]]), d.index(min(d)), float(min(d))), r2)
+                    break
+
+    # ---- ward / ward_quick heights and merge order with offsets in the features; average link with offset similarities
+    shapes = [("path", 4, [(0, 1), (1, 2), (2, 3)]), ("path", 6, [(i, i + 1) for i in range(5)]),
+              ("cycle", 5, [(i, (i + 1) % 5) for i in range(5)]),
+              ("grid", 6, [(0, 1), (1, 2), (3, 4), (4, 5), (0, 3), (1, 4), (2, 5)]),
+              ("two-paths", 6, [(0, 1), (1, 2), (3, 4), (4, 5)])]
+    first = True
+    for t in range(ck.n(30, 240)):
+        name, n, E0 = shapes[t % len(shapes)]
+        E = [(min(a, b), max(a, b)) for a, b in E0]
+        p = int(rng.integers(1, 3))
+        offset = [1e6, 1e8, 1e9, 1e12, 0.0][t % 5]
+        if first:                                        # the written-out case: 1e9 + [0, 1, 5, 7] on a path
+            feat = (1e9 + np.array([0., 1., 5., 7.])).reshape(4, 1)
+            offset, first = 1e9, False
+        else:
+            feat, _, _ = stress_matrix(rng, n, p, offset=offset, mixed=False)
+        suffix = "/large-offset" if offset >= 1e6 else "/float"
+        featl = [[float(v) for v in r] for r in feat]
+        Ed = E + [(b, a) for a, b in E]
+        rep = {"graph": name, "n": n, "edges": [list(e) for e in Ed], "features": [[repr(v) for v in r] for r in featl]}
+        ck.count(("fward", name, rep["features"]), bucket="float-ward:%s" % suffix[1:])
+        for fn, cheapest in (("ward", True), ("ward_quick", False)):
+            with warnings.catch_warnings():
+                warnings.simplefilter("ignore")
+                try:
+                    tt = getattr(hc, fn)(WeightedGraph(n, np.array(Ed, dtype=np.int_), np.ones(len(Ed))), feat.copy())
+                except Exception as e:  # noqa
+                    ck.fail("%s/raises/%s%s" % (fn, type(e).__name__, suffix), "%s raised %s: %s" % (fn, type(e).__name__, e), rep)
+                    continue
+            pq, hq = [int(v) for v in tt.parents], [float(v) for v in tt.height]
+            dendrogram_oracle(ck, fn, n, E, featl, pq, hq, False, cheapest, True, dict(rep, parents=pq, height=[repr(v) for v in hq]),
+                              suffix=suffix, keep_going=True)
+        wd = {e: int(rng.integers(1, 6)) for e in E}
+        woff = float(rng.choice([0.0, 1e6, 1e9]))
+        W = np.array([woff + wd[e] for e in E] * 2)
+        with warnings.catch_warnings():
+            warnings.simplefilter("ignore")
+            try:
+                ta = hc.average_link_graph(WeightedGraph(n, np.array(Ed, dtype=np.int_), W))
+                pa, ha = [int(v) for v in ta.parents], [float(v) for v in ta.height]
+                ra = dict(rep, parents=pa, height=[repr(v) for v in ha], similarities={"%d-%d" % e: repr(woff + v) for e, v in wd.items()})
+                if dendrogram_oracle(ck, "average_link_graph", n, E, featl, pa, ha, False, False, False, ra) is not None:
+                    average_link_oracle(ck, n, E, {e: F(woff) + v for e, v in wd.items()}, pa, ha, ra)
+            except Exception as e:  # noqa
+                ck.fail("average_link_graph/raises", "average_link_graph raised %s: %s" % (type(e).__name__, e), rep)
+
+
 def run(ck):
     ck.cov["rule"] = ("kmeans: integer data matrices (1..5 features, duplicates/ties), all k 1..n, initial labellings incl. empty "
                       "clusters, maxiter 1..6, delta in {0,1e-4,1/8,1/4}; exhaustive for n<=4 on a line (sampled in quick), random "
@@ -275,6 +468,7 @@ def run(ck):
     ck.overlay()
     t1 = time.time()
     kmeans_section(ck)
+    float_stress_section(ck)
     t2 = time.time()
     hierarchical_section(ck)
     t3 = time.time()
@@ -391,7 +585,8 @@ def graph_cases(ck):
     return out
 
 
-def dendrogram_oracle(ck, tag, n, E, feat, parents, height, exact, cheapest, cost_is_wss, rep, monotone=True):
+def dendrogram_oracle(ck, tag, n, E, feat, parents, height, exact, cheapest, cost_is_wss, rep, monotone=True, suffix="",
+                      keep_going=False):
     """Proper-dendrogram clauses evaluated on the implementation's (parents, height).  Returns the leaf
     sets per node, or None when the structure is broken."""
     comp = components(n, E)
@@ -437,8 +632,9 @@ def dendrogram_oracle(ck, tag, n, E, feat, parents, height, exact, cheapest, cos
         def close(x, y):
             return x == y if exact else abs(x - y) <= F(1, 10 ** 9) * (1 + abs(y))
         if cost_is_wss and not close(hk, cost):
-            ck.fail("%s/height-is-not-merged-inertia" % tag, "height[%d]=%s but the merged cluster %s has within-SS %s" % (k, hk, leaves[k], cost), rep)
-            return leaves
+            ck.fail("%s/height-is-not-merged-inertia%s" % (tag, suffix), "height[%d]=%s but the merged cluster %s has within-SS %s" % (k, float(hk), leaves[k], cost), rep)
+            if not keep_going:
+                return leaves
         if cheapest:
             lv = sorted(live)
             for x in range(len(lv)):
@@ -447,13 +643,13 @@ def dendrogram_oracle(ck, tag, n, E, feat, parents, height, exact, cheapest, cos
                     if joined(A, B):
                         c2 = wss(feat, A + B)
                         if c2 < cost and not close(c2, cost):
-                            ck.fail("%s/merge-not-cheapest" % tag, "node %d merges %s+%s at cost %s but %s+%s costs %s" % (k, leaves[a], leaves[b], cost, A, B, c2), rep)
+                            ck.fail("%s/merge-not-cheapest%s" % (tag, suffix), "node %d merges %s+%s at cost %s but %s+%s costs %s" % (k, leaves[a], leaves[b], cost, A, B, c2), rep)
                             return leaves
         live -= {a, b}
         live.add(k)
     for v in range(V if monotone else 0):
         if F(height[parents[v]]) < F(height[v]):
-            ck.fail("%s/height-decreases-child-to-parent" % tag, "height[%d]=%s > height[parent %d]=%s" % (v, height[v], parents[v], height[parents[v]]), rep)
+            ck.fail("%s/height-decreases-child-to-parent%s" % (tag, suffix), "height[%d]=%s > height[parent %d]=%s" % (v, height[v], parents[v], height[parents[v]]), rep)
             break
     return leaves
 
